@@ -197,6 +197,11 @@ def run_core(ctx, opts=("d",), force=False):
                     ireqs.append((cid, key, -1, True, size, width, seq))
                     mlines.append("run %s/%s %s 1 1 0 0 %d %s" % (gid, o, cid, FUEL, ";".join(",".join(map(str, B.runes_of(i))) for i in seq)))
                     meta[cid] = dict(g=gid, o=o, kind="history", memo=True, inputs=seq, entry=0, size=size, width=width)
+                # the same history with DisableMemoize (C06: memoisation is invisible on a reused parser too)
+                cid = "%s/%s/hn" % (gid, o)
+                ireqs.append((cid, key, -1, False, -1, "uint32", inputs))
+                mlines.append("run %s/%s %s 1 0 0 0 %d %s" % (gid, o, cid, FUEL, ";".join(",".join(map(str, B.runes_of(i))) for i in inputs)))
+                meta[cid] = dict(g=gid, o=o, kind="history-nomemo", memo=False, inputs=inputs, entry=0, size=-1, width="uint32")
     ires = bt.run_impl(ireqs)
     mres, merrs = model.run(mlines)
     data["model_errors"] = merrs[:20]
@@ -360,7 +365,7 @@ def compare_case(rec, ginfo):
 def compare_spec(rec):
     """model machine vs reference semantics (both sides are the extracted model)"""
     sp = rec.get("spec")
-    if not sp or rec["kind"] == "history":
+    if not sp or rec["kind"].startswith("history"):
         return []
     mo = split_obs(rec["model"])[0] if rec["model"] else {}
     s = B.parse_obs(sp)
